@@ -15,6 +15,7 @@ Suites:
   cmsg    : directly built messages with str/bytes/int values: extracted to_human/from_human instantiated with the concrete literal
             model vs to_human_string(beautify=False)/from_human_string(safe=True), plus mutated texts with the real ast.literal_eval
 """
+import ast
 import collections
 import json
 import logging
@@ -226,6 +227,9 @@ def real_parse_symbolic(text: str, safe: bool):
     mf.subfield_eval = fake_subfield_eval
     mf.float = simple_float
     mf.eval, mf.exec = fake_eval, fake_exec
+    # the literal reader is ONE oracle of the model (read_lit): the inf/nan branch added by /repo 349217f is part of it
+    saved_rl = im.H.__dict__.get("_read_literal", _MISSING)
+    im.H._read_literal = staticmethod(lambda s_: AstShim.literal_eval(s_))
     try:
         repl = {k: Sym("R:" + show_s(k)) for k in KNOWN_REPL}
         try:
@@ -244,6 +248,13 @@ def real_parse_symbolic(text: str, safe: bool):
                                       ",".join(show_s(s) for s in evals))
         return out, evals, hidden, None
     finally:
+        if saved_rl is _MISSING:
+            try:
+                delattr(im.H, "_read_literal")
+            except Exception:
+                pass
+        else:
+            im.H._read_literal = saved_rl
         for k, v in saved.items():
             if v is _MISSING:
                 mf.__dict__.pop(k, None)
@@ -417,8 +428,12 @@ class Gen:
         if t in self.fix:
             n = self.fix[t]
             if t == MT.MVT_F32:
+                if rng.random() < 0.04:     # the non-finite wire values: shown as inf / -inf / nan
+                    return struct.pack("<f", rng.choice([math.inf, -math.inf])) if rng.random() < 0.8 else bytes.fromhex("0100c0ff")
                 return self.f32()
             if t == MT.MVT_F64:
+                if rng.random() < 0.04:
+                    return struct.pack("<d", rng.choice([math.inf, -math.inf]))
                 return self.f64()
             if t == MT.MVT_LLVector3:
                 return b"".join(self.f32() for _ in range(3))
@@ -600,6 +615,7 @@ def _tmpl_var(im, m, b, k):
 def _packs_back(serializer, block, pretty, v) -> bool:
     """transcription of HumanMessageSerializer._packs_back: the pretty form is shown only if packing it gives the value back"""
     try:
+        ast.literal_eval(repr(pretty))      # (a5401e5) a non-finite float inside the literal cannot be read back
         packed = serializer.serialize(block, pretty)
     except BaseException:   # noqa
         return False
@@ -805,8 +821,6 @@ def precondition(im, m, beautify):
     for bl in m.blocks.values():
         for b in bl:
             for k, v in b.items():
-                if nonfinite(v) or (hasattr(v, "__iter__") and not isinstance(v, (str, bytes)) and nonfinite(tuple(v))):
-                    return "nonfinite-plain-float"
                 if not beautify:
                     continue
                 s_ = se.SUBFIELD_SERIALIZERS.get((m.name, b.name, k))
@@ -818,8 +832,6 @@ def precondition(im, m, beautify):
                     continue
                 if p is se.UNSERIALIZABLE:
                     continue
-                if nonfinite(p):
-                    return "nonfinite-packed-float"
                 # (payloads whose pretty form does not pack back to the same bytes are in scope since /repo 5def644: the
                 #  formatter shows them raw)
     return None
@@ -882,7 +894,24 @@ def check_roundtrip(im, dg_hex: str, beautify: bool, use_repl: bool, use_tmpl: b
     return res
 
 
+def _has_nan(x) -> bool:
+    if isinstance(x, float):
+        return x != x
+    if isinstance(x, dict):
+        return any(_has_nan(k) or _has_nan(v) for k, v in x.items())
+    if isinstance(x, (list, tuple)) or (hasattr(x, "__iter__") and not isinstance(x, (str, bytes, bytearray))):
+        try:
+            return any(_has_nan(v) for v in x)
+        except Exception:
+            return False
+    return False
+
+
 def classify(im, m, repl, beautify):
+    # a NaN is shown as `nan`, which reads back as the default quiet NaN: sign and payload bits of the wire value are not
+    # representable in the text (recorded as a known finding)
+    if any(_has_nan(v) for bl in m.blocks.values() for b in bl for v in b.vars.values()):
+        return "nan-float-not-representable"
     for bn, bl in m.blocks.items():
         for bi, b in enumerate(bl):
             for k, v in b.items():
@@ -1566,6 +1595,8 @@ def real_parse_concrete(text: str, safe: bool):
     mf.ast, mf.datatypes, mf.se = AstShim, DtShim, SeShim
     mf.subfield_eval = fake_subfield_eval
     mf.float = _FloatTok
+    saved_rl = im.H.__dict__.get("_read_literal", _MISSING)
+    im.H._read_literal = staticmethod(lambda s_: AstShim.literal_eval(s_))
     try:
         repl = {k: Sym("O:3:" + show_s(k)) for k in KNOWN_REPL}
         try:
@@ -1578,6 +1609,13 @@ def real_parse_concrete(text: str, safe: bool):
             return "NOMSG", lits, None
         return canon_cmsg(m, evals), lits, None
     finally:
+        if saved_rl is _MISSING:
+            try:
+                delattr(im.H, "_read_literal")
+            except Exception:
+                pass
+        else:
+            im.H._read_literal = saved_rl
         for k, v in saved.items():
             if v is _MISSING:
                 mf.__dict__.pop(k, None)
